@@ -22,7 +22,6 @@ structure SymDef where
   known : Bool := false
   value : Value := .unknown
   resolved : Bool := false
-  bank : Option Nat := none
 deriving Repr, Inhabited
 
 structure FnDef where
